@@ -8,12 +8,15 @@
 package verifhook
 
 import (
+	"bufio"
 	"bytes"
 	"encoding/json"
+	"net"
 	"os"
 	"runtime"
 	"strconv"
 	"sync"
+	"syscall"
 	"time"
 )
 
@@ -51,6 +54,9 @@ func Emit(kind string, kv ...any) {
 		Sink(kind, kv)
 		return
 	}
+	if ctl() != nil {
+		ctlSend(kvMap(kind, "event", kv), false)
+	}
 	mu.Lock()
 	defer mu.Unlock()
 	if !opened {
@@ -76,9 +82,69 @@ func Emit(kind string, kv ...any) {
 	_, _ = file.Write(append(line, '\n'))
 }
 
+// ---- external controller (GROG_VERIF_CTL=<unix socket>): the process connects on first use; every Emit is sent as
+// one JSON line, every Gate sends {"gate":name,...} and blocks until the controller answers with a line.
+var (
+	ctlOnce sync.Once
+	ctlConn net.Conn
+	ctlRd   *bufio.Reader
+	ctlMu   sync.Mutex
+)
+
+func ctl() net.Conn {
+	ctlOnce.Do(func() {
+		if p := os.Getenv("GROG_VERIF_CTL"); p != "" {
+			c, err := net.Dial("unix", p)
+			if err == nil {
+				ctlConn = c
+				ctlRd = bufio.NewReader(c)
+				hello, _ := json.Marshal(map[string]any{"hello": os.Getpid(), "id": os.Getenv("GROG_VERIF_ID")})
+				_, _ = c.Write(append(hello, '\n'))
+			}
+		}
+	})
+	return ctlConn
+}
+
+// Controlled reports whether an external controller steps this process through its gates.
+func Controlled() bool { return ctl() != nil }
+
+func ctlSend(m map[string]any, wait bool) {
+	c := ctl()
+	if c == nil {
+		return
+	}
+	ctlMu.Lock()
+	defer ctlMu.Unlock()
+	line, err := json.Marshal(m)
+	if err != nil {
+		return
+	}
+	if _, err := c.Write(append(line, '\n')); err != nil {
+		return
+	}
+	if wait {
+		_, _ = ctlRd.ReadString('\n')
+	}
+}
+
+func kvMap(kind, key string, kv []any) map[string]any {
+	m := map[string]any{key: kind, "pid": os.Getpid()}
+	for i := 0; i+1 < len(kv); i += 2 {
+		if k, ok := kv[i].(string); ok {
+			m[k] = kv[i+1]
+		}
+	}
+	return m
+}
+
 func Gate(name string, kv ...any) {
 	if GateFn != nil {
 		GateFn(name, kv)
+		return
+	}
+	if ctl() != nil {
+		ctlSend(kvMap(name, "gate", kv), true)
 		return
 	}
 	if delayAt == "" {
@@ -120,4 +186,19 @@ func ResetCounters() {
 	counterMu.Lock()
 	counters = map[string]int64{}
 	counterMu.Unlock()
+}
+
+// Ino returns the inode number behind an open file (0 if unknown); used to log which lock file a process holds.
+func Ino(f *os.File) uint64 {
+	if f == nil {
+		return 0
+	}
+	info, err := f.Stat()
+	if err != nil {
+		return 0
+	}
+	if st, ok := info.Sys().(*syscall.Stat_t); ok {
+		return uint64(st.Ino)
+	}
+	return 0
 }
